@@ -7,9 +7,10 @@ func init() {
 				"set helpers at int64: slices of length 0..3 x 0..3 (quick) / 0..4 x 0..4 (thorough) with symbolic elements, membership compared through a symbolic probe value",
 				"Max/Min at int64 and float64 (NaN excluded): length 0..4",
 				"CalculateArithmeticShift: index any int64, shift case-split over -62..62, compared with 128-bit ghost floor(i*2^s)",
+				"linear vector laws: Add/Sub/Scale/NewVectorFromPoints equal their component formulas bit for bit (exact IEEE, cvc5); Dot/Cross/L1Norm are the documented formulas structurally (float operations uninterpreted); Line3.Start/ToPoint(0) exact, ToPoint(1) = End and within 1e-9 of the end point (relaxed encoding); components up to 1e6 in magnitude",
 				"Combinations: every 0 <= k <= n <= 6 (quick) / 8 (thorough), run concretely (the function has no other input)",
 			},
-			Outside: []string{"vector/matrix/quaternion identities that hold only up to floating-point rounding (Norm, Unit, Cos, RotateBetweenVector, QuatFromAxisAngle, matrix associativity): non-linear float arithmetic with sqrt/sin/cos, not decided by this technique", "slices longer than 4", "n > 8 for Combinations"},
+			Outside: []string{"non-linear float identities (Norm, Unit, Cos, RotateBetweenVector, QuatFromAxisAngle, matrix associativity / MulVec agreement): non-linear float arithmetic with sqrt/sin/cos, not decided by this technique", "slices longer than 4", "n > 8 for Combinations"},
 		},
 		insts: func(tier string) []*Instance {
 			var is []*Instance
@@ -33,6 +34,16 @@ func init() {
 			for s := -62; s <= 62; s++ {
 				is = append(is, mk("common", "VerifC20Shift", cs("s", s)))
 			}
+			vl := mk("common/spatial", "VerifC20VecLinear", nil)
+			vl.Solver = CVC5
+			vl.Timeout = 300000
+			vp := mk("common/spatial", "VerifC20VecProducts", nil)
+			vp.Opaque = true // products of two symbolic doubles: exact IEEE did not finish (800 s); the formulas are compared structurally
+			ln := mk("common/spatial", "VerifC20Line", nil)
+			ln.Relaxed = true
+			ln.RelaxedUF = true
+			ln.Timeout = 120000
+			is = append(is, vl, vp, ln)
 			nmax := 6
 			if tier == "thorough" {
 				nmax = 8
